@@ -20,11 +20,52 @@ def ty_from_mich(m):
     return (m['prim'], *[ty_from_mich(a) for a in m.get('args', [])])
 
 
+def comb_leaves(t):
+    """component types along the right spine of a pair type (a non-pair is its own single leaf)"""
+    out = []
+    while t[0] == 'pair':
+        out.append(t[1])
+        t = t[2]
+    return out + [t]
+
+
+def comb_of(ts):
+    """right-comb type of >= 2 component types"""
+    return ts[0] if len(ts) == 1 else ('pair', ts[0], comb_of(ts[1:]))
+
+
+def get_n_ty(n, t):
+    """type of `GET n` on a value of type t (None = ill-typed): 0 -> whole, 2k+1 -> k CDRs then CAR, 2k -> k CDRs"""
+    while n >= 2:
+        if t[0] != 'pair':
+            return None
+        t, n = t[2], n - 2
+    if n == 0:
+        return t
+    return t[1] if t[0] == 'pair' else None
+
+
+def update_n_ty(n, e, t):
+    if n == 0:
+        return e
+    if t[0] != 'pair':
+        return None
+    if n == 1:
+        return ('pair', e, t[2])
+    r = update_n_ty(n - 2, e, t[2])
+    return None if r is None else ('pair', t[1], r)
+
+
 class Gen:
     def __init__(self, rng, max_depth=3):
         self.rng = rng
         self.max_depth = max_depth
         self.used = {}
+        self.shapes = {}
+
+    def shape(self, key):
+        """boundary shapes chosen by the generator (goes into the evidence)"""
+        self.shapes[key] = self.shapes.get(key, 0) + 1
 
     # ---------------------------------------------------------------- types and values
     def gen_type(self, depth=2, comparable=False):
@@ -238,6 +279,7 @@ class Gen:
         add(1, 'NIL', lambda: self._typed1(st, 'NIL', lambda t: ('list', t)))
         add(1, 'EMPTY_MAP', lambda: self._empty_map(st))
         add(1, 'ENV', lambda: self._env(st))
+        add(2, 'COMB', lambda: self._comb_idiom(st))
         if depth > 0:
             add(1, 'LAMBDA', lambda: self._lambda(st, depth))
         res = None
@@ -249,7 +291,10 @@ class Gen:
             add(1, 'RIGHT', lambda: self._lr(st, 'RIGHT'))
             if depth > 0:
                 add(2, 'DIP', lambda: self._dip(st, 1, depth))
+            add(0.2, 'GETN', lambda: self._getn(st))
             if top[0] == 'pair':
+                add(2, 'GETN', lambda: self._getn(st))
+                add(2, 'UNPAIRN', lambda: self._unpairn(st))
                 add(3, 'CAR', lambda: ([{'prim': 'CAR'}], [top[1]] + st[1:]))
                 add(3, 'CDR', lambda: ([{'prim': 'CDR'}], [top[2]] + st[1:]))
                 add(3, 'UNPAIR', lambda: ([{'prim': 'UNPAIR'}], [top[1], top[2]] + st[1:]))
@@ -291,6 +336,8 @@ class Gen:
         if len(st) >= 2:
             add(2, 'SWAP', lambda: ([{'prim': 'SWAP'}], [snd, top] + st[2:]))
             add(3, 'PAIR', lambda: ([{'prim': 'PAIR'}], [('pair', top, snd)] + st[2:]))
+            add(1.5, 'PAIRN', lambda: self._pairn(st))
+            add(3 if snd[0] == 'pair' else 0.2, 'UPDATEN', lambda: self._updaten(st))
             add(2, 'DIG', lambda: self._dig(st))
             add(2, 'DUG', lambda: self._dug(st))
             add(2, 'DUPN', lambda: self._dupn(st))
@@ -327,6 +374,108 @@ class Gen:
         return f()
 
     # helpers ------------------------------------------------------------------------------------------------
+    # ---- right combs: PAIR n / UNPAIR n / GET n / UPDATE n -------------------------------------------------
+    def gen_comb_type(self):
+        """a pair type with an interesting spine: right combs of 2..6 leaves, leaves that are pairs themselves
+        (`pair (pair a b) c`, non-comb), a pair in the last position (which lengthens the comb)"""
+        r = self.rng
+        k = r.choice([2, 3, 3, 4, 5, 6])
+        leaves = []
+        for i in range(k):
+            x = r.random()
+            if x < 0.2:
+                leaves.append(('pair', self.gen_type(0), self.gen_type(0)))      # a pair as a leaf
+            elif x < 0.3:
+                leaves.append(self.gen_type(1))
+            else:
+                leaves.append(self.gen_type(0))
+        return comb_of(leaves)
+
+    def _pick_n(self, lo, hi, what):
+        """an argument in [lo, hi], boundaries preferred"""
+        r = self.rng
+        x = r.random()
+        if x < 0.3:
+            n = hi
+        elif x < 0.5:
+            n = lo
+        elif x < 0.6 and hi - 1 >= lo:
+            n = hi - 1
+        else:
+            n = r.randrange(lo, hi + 1)
+        self.shape(f'{what} n={"max" if n == hi else n}')
+        if n != hi:
+            self.shape(f'{what} n<max')
+        return n
+
+    def _pairn(self, st):
+        n = self._pick_n(2, len(st), 'PAIR')
+        return [{'prim': 'PAIR', 'args': [{'int': str(n)}]}], [comb_of(st[:n])] + st[n:]
+
+    def _unpairn(self, st):
+        leaves = comb_leaves(st[0])
+        n = self._pick_n(2, len(leaves), 'UNPAIR')
+        return [{'prim': 'UNPAIR', 'args': [{'int': str(n)}]}], leaves[:n - 1] + [comb_of(leaves[n - 1:])] + st[1:]
+
+    def _getn(self, st):
+        top = st[0]
+        if top[0] != 'pair':
+            self.shape('GET n=0 on a non-pair')
+            return [{'prim': 'GET', 'args': [{'int': '0'}]}], st
+        n = self._pick_n(0, 2 * (len(comb_leaves(top)) - 1), 'GET')
+        return [{'prim': 'GET', 'args': [{'int': str(n)}]}], [get_n_ty(n, top)] + st[1:]
+
+    def _updaten(self, st):
+        e, t = st[0], st[1]
+        if t[0] != 'pair':
+            self.shape('UPDATE n=0 on a non-pair')
+            n = 0
+        else:
+            n = self._pick_n(0, 2 * (len(comb_leaves(t)) - 1), 'UPDATE')
+        if e[0] == 'pair':
+            self.shape('UPDATE with a pair element')
+        return [{'prim': 'UPDATE', 'args': [{'int': str(n)}]}], [update_n_ty(n, e, t)] + st[2:]
+
+    def _comb_idiom(self, st):
+        """push a value with an interesting spine (written `Pair a b c …` / nested at random) and use it"""
+        r = self.rng
+        t = self.gen_comb_type()
+        v = self.gen_value(t, depth=3)
+        ty = ty_mich(t)
+        if r.random() < 0.3:
+            ty, v = self.flat_comb(ty, v)
+        code, st2 = [{'prim': 'PUSH', 'args': [ty, v]}], [t] + st
+        k = r.randrange(5)
+        if k == 0:
+            c, st2 = self._unpairn(st2)
+            self.note('UNPAIRN')
+            if r.random() < 0.6:      # … and fold them back
+                c2, st2 = self._pairn(st2)
+                self.note('PAIRN')
+                c += c2
+        elif k == 1:
+            c, st2 = self._getn(st2)
+            self.note('GETN')
+        elif k == 2:
+            e = self.gen_type(1) if r.random() < 0.7 else ('pair', self.gen_type(0), self.gen_type(0))
+            c, st2 = self._updaten([e] + st2)
+            self.note('UPDATEN')
+            c = [self.push(e)] + c
+        elif k == 3 and len(st2) >= 2:
+            c, st2 = self._pairn(st2)
+            self.note('PAIRN')
+        else:
+            c = []
+        return code + c, st2
+
+    def flat_comb(self, ty, v):
+        """the n-ary spellings `pair a b c` / `Pair x y z` of a right comb (types and values flattened alike)"""
+        if ty.get('prim') == 'pair' and len(ty['args']) == 2 and ty['args'][1].get('prim') == 'pair' \
+                and isinstance(v, dict) and v.get('prim') == 'Pair':
+            t2, v2 = self.flat_comb(ty['args'][1], v['args'][1])
+            return ({'prim': 'pair', 'args': [ty['args'][0]] + t2['args']}, {'prim': 'Pair', 'args': [v['args'][0]] + v2['args']})
+        return ty, v
+
     def _push_any(self, st):
         t = self.gen_type(2)
         return [self.push(t)], [t] + st
@@ -443,6 +592,28 @@ SUB_T = {('nat', 'nat'): 'int', ('nat', 'int'): 'int', ('int', 'nat'): 'int', ('
          ('timestamp', 'timestamp'): 'int', ('mutez', 'mutez'): 'mutez'}
 MUL_T = {('nat', 'nat'): 'nat', ('nat', 'int'): 'int', ('int', 'nat'): 'int', ('int', 'int'): 'int', ('mutez', 'nat'): 'mutez',
          ('nat', 'mutez'): 'mutez'}
+
+
+def well_typed_edge(code):
+    """is the last instruction of an edge-stream program (PUSH…; <comb instruction n>) inside its typing rule?"""
+    types = [ty_from_mich(c['args'][0]) if c['prim'] == 'PUSH' else ('unit',) for c in code[:-1]][::-1]
+    types = [binarize_ty(t) for t in types]
+    last, n = code[-1]['prim'], int(code[-1]['args'][0]['int'])
+    if last == 'PAIR':
+        return 2 <= n <= len(types)
+    if last == 'UNPAIR':
+        return 2 <= n <= len(comb_leaves(types[0]))
+    if last == 'GET':
+        return get_n_ty(n, types[0]) is not None
+    if last == 'UPDATE':
+        return update_n_ty(n, types[0], types[1]) is not None
+    raise ValueError(last)
+
+
+def binarize_ty(t):
+    if t[0] == 'pair' and len(t) > 3:
+        return ('pair', binarize_ty(t[1]), binarize_ty(('pair',) + t[2:]))
+    return (t[0],) + tuple(binarize_ty(a) for a in t[1:])
 
 
 def code_size(code):
